@@ -1,9 +1,14 @@
 //! Verification harness: runs the working tree of /repo on cases written by the /verif checks.
 mod canon;
+mod cmd_ast;
 mod cmd_feel;
+mod cmd_json;
 mod cmd_model;
-mod cmd_recognize;
 mod cmd_num;
+mod cmd_serve;
+mod cmd_threads;
+mod cmd_pure;
+mod cmd_recognize;
 mod cmd_types;
 mod cmd_ws;
 mod guard;
@@ -12,13 +17,18 @@ fn main() {
   std::panic::set_hook(Box::new(|_| {}));
   let cmd = std::env::args().nth(1).unwrap_or_default();
   match cmd.as_str() {
+    "ast" => cmd_ast::main(),
     "feel" => cmd_feel::main(),
+    "json" => cmd_json::main(),
+    "serve" => cmd_serve::main(),
+    "threads" => cmd_threads::main(),
     "ws" => cmd_ws::main(),
     "guard" => guard::main(),
     "model" => cmd_model::main(),
     "recognize" => cmd_recognize::main(),
     "num" => cmd_num::main(),
     "types" => cmd_types::main(),
+    "pure" => cmd_pure::main(),
     _ => {
       eprintln!("usage: dv feel|ws|types");
       std::process::exit(2);
